@@ -88,6 +88,9 @@ def run(tier, seed, t0):
     mcf.append(ex.submit(vlib.run_mc, "MC_Wire", "MC_Wire_lowstrict.cfg", workers=1, xmx="1g",
                          expect_violation="Temporal property Resume was violated"))
     mcf.append(ex.submit(vlib.run_mc, "MC_Wire", "MC_Wire_norereg.cfg", workers=1, xmx="1g", expect_violation="RegSync"))
+    # ... and a Close that leaves what the throttled handles had handed over in their queues (SealTakesAll)
+    mcf.append(ex.submit(vlib.run_mc, "MC_Wire", "MC_Wire_closeleaves.cfg", workers=1, xmx="1g",
+                         expect_violation="SealTakesAll"))
     if thorough:
         mcf.append(ex.submit(vlib.run_mc, "MC_Wire", "MC_Wire_bigseal.cfg", workers=6, xmx="6g", timeout=1500))
     try:
